@@ -469,16 +469,20 @@ func c14Race(a *vh.Args) {
 	groups := []*pb.PhantomSubnets{c14MkGroup(c14Groups[0], 9, true), c14MkGroup(c14Groups[10], 1, false), c14MkGroup(c14Groups[11], 3, false)}
 	sel := &PhantomIPSelector{Networks: map[uint]*SubnetConfig{}}
 	sel.AddGeneration(1, &SubnetConfig{WeightedSubnets: groups})
+	// generations whose selection fails (every weight zero; no group at all): error paths interleaved with the others
+	sel.AddGeneration(2, &SubnetConfig{WeightedSubnets: []*pb.PhantomSubnets{c14MkGroup(c14Groups[0], 0, true), c14MkGroup(c14Groups[10], 0, false)}})
+	sel.AddGeneration(3, &SubnetConfig{})
 	seeds := c14Seeds(8)
 	type q struct {
 		seed []byte
 		ver  uint
 		v6   bool
+		gen  uint
 	}
 	var qs []q
 	var want []string
 	one := func(x q) string {
-		ip, err := sel.Select(x.seed, 1, x.ver, x.v6)
+		ip, err := sel.Select(x.seed, x.gen, x.ver, x.v6)
 		if err != nil {
 			return "err:" + err.Error()
 		}
@@ -486,13 +490,20 @@ func c14Race(a *vh.Args) {
 	}
 	for i, sd := range seeds {
 		for ver := uint(0); ver <= 4; ver++ {
-			x := q{sd, ver, (i+int(ver))%2 == 1}
+			x := q{sd, ver, (i+int(ver))%2 == 1, 1}
 			qs = append(qs, x)
 			want = append(want, one(x))
+			if i < 2 {
+				for _, g := range []uint{2, 3} {
+					y := q{sd, ver, x.v6, g}
+					qs = append(qs, y)
+					want = append(want, one(y))
+				}
+			}
 		}
 	}
 	out := &vh.Out{Name: "race", Exhaustive: false, Cap: "free-running sample of schedules under the race detector (adjunct)", ViolCounts: map[string]int64{},
-		Samples: []any{map[string]any{"iteration": "6 goroutines x 40 Select calls (libver 0-4, both families) on one selector, each compared with the serial answer"}}}
+		Samples: []any{map[string]any{"iteration": "6 goroutines x 40 Select calls (libver 0-4, both families; generations that select and generations whose selection fails) on one selector, each compared with the serial answer"}}}
 	t0 := time.Now()
 	var n, bad int64
 	var first atomic.Value
